@@ -1276,9 +1276,11 @@ def rule_rf1(ctx):
         cur = par
     inst = "FSA.recurrent"
     if cond is None:
-        r.violation("RF1", f"{f.fq}|unguarded", loc(f, d), dotted(d),
-                    "vertices are deleted without a dead-end test",
-                    instance=inst)
+        # the test may live elsewhere (a worklist of vertices already known
+        # to be dead ends, degree counters): an idiom this rule does not read
+        r.note("RF1", loc(f, d), inst,
+               "the deletion is not directly under a dead-end test "
+               "(worklist / counter form): not judged")
         return
     ctext = dotted(cond.test)
     if isinstance(cond.test, ast.Name):
@@ -1299,6 +1301,12 @@ def rule_rf1(ctx):
             "neighbour's cell exists but is empty, so a vertex that just "
             "lost its last incoming (outgoing) edge is kept",
             instance=inst + ":condition")
+    elif not any(k in ctext for k in ("_out_dict", "neighbors_out",
+                                      "_in_dict", "neighbors_in",
+                                      "edges_out", "edges_in")):
+        r.note("RF1", loc(f, cond), inst,
+               "the dead-end test does not read the views directly "
+               f"(`{ctext[:60]}`: counters / a helper): not judged")
     elif not both:
         r.violation(
             "RF1", f"{f.fq}|condition", loc(f, cond), ctext[:140],
@@ -1679,28 +1687,56 @@ def rule_iter1(ctx, rels):
                     f"{len(passes)} times (lines "
                     f"{', '.join(str(x.lineno) for x in passes)}) without "
                     "materialising it: for a generator -- "
-                    "words.asym_gens(..), Representation.asym_gens(), any "
-                    "`(g for g in ..)` -- the second pass is empty, so the "
-                    "inverse letters are missing and the automaton accepts "
-                    "positive words only, with no error",
+                    "words.asym_gens(..), Representation.asym_gens(), zip(..), "
+                    "any `(g for g in ..)` -- the second pass is empty, so "
+                    "what it builds is silently missing (free_automaton: no "
+                    "inverse letters; from_diagram: a group with no "
+                    "generators at all)",
                     instance=f"{f.qualname}:{p}")
     if n == 0:
         r.ok("ITER1", "modules", ",".join(rels), "",
              "no parameter is consumed twice")
 
 
-def rule_md1(ctx):
+MD1_TEXT = {
+    "FSA.__init__": (
+        "an FSA owns its list of start states: the constructor "
+        "stores a COPY (`list(start_vertices)`), never the "
+        "argument itself. The default is one shared `[]`, and "
+        "rename_generators(inplace=False), automaton_multiple and "
+        "remove_long_paths hand `self.start_vertices` (or the "
+        "default) to the new automaton: with the argument stored "
+        "by reference, changing the start state of the result "
+        "changes accepts() / enumerate_words() of the original "
+        "and of every automaton built with the default",
+        "FSA({}) automata all share it, and "
+        "rename_generators(inplace=False) / automaton_multiple give "
+        "results whose start_vertices IS the original's -- "
+        "`R.start_vertices[0] = v` moves the start state of the "
+        "original too"),
+    "Representation.__init__": (
+        "a Representation owns its list of relators: the constructor "
+        "stores a COPY of `relations`, never the argument. The default "
+        "is one shared `[]` and the copy constructor (called twice by "
+        "_compose) extends the list in place with the source's "
+        "relators: stored by reference, every representation built "
+        "without explicit relators shares one growing list, and "
+        "cocycle_matrix() of a derived representation of a different "
+        "group uses relators it does not satisfy",
+        "every representation built without `relations=` shares the "
+        "list, and `self.relations += representation.relations` in the "
+        "copy constructor grows it for all of them: cocycle_matrix() @ "
+        "coboundary_matrix() is no longer 0 for a Z^2 representation "
+        "derived after an infinite-dihedral one"),
+}
+
+
+def rule_md1(ctx, rel=FSA_REL, qualname="FSA.__init__"):
     r = ctx.r
-    r.rule("MD1", "an FSA owns its list of start states: the constructor "
-                  "stores a COPY (`list(start_vertices)`), never the "
-                  "argument itself. The default is one shared `[]`, and "
-                  "rename_generators(inplace=False), automaton_multiple and "
-                  "remove_long_paths hand `self.start_vertices` (or the "
-                  "default) to the new automaton: with the argument stored "
-                  "by reference, changing the start state of the result "
-                  "changes accepts() / enumerate_words() of the original "
-                  "and of every automaton built with the default")
-    f = ctx.p.get_function(FSA_REL, "FSA.__init__")
+    rule_text, why_text = MD1_TEXT[qualname]
+    r.rule("MD1", "a constructor stores a COPY of a container parameter "
+                  "that has a mutable default. " + rule_text)
+    f = ctx.p.get_function(rel, qualname)
     r.analysed(f)
     a = f.node.args
     pos = a.posonlyargs + a.args
@@ -1738,7 +1774,7 @@ def rule_md1(ctx):
             continue
         n += 1
         if copied:
-            r.ok("MD1", f"FSA.__init__:{st.targets[0].attr}", loc(f, st),
+            r.ok("MD1", f"{qualname}:{st.targets[0].attr}", loc(f, st),
                  dotted(st)[:80], "stored after a copy")
         else:
             r.violation(
@@ -1746,13 +1782,10 @@ def rule_md1(ctx):
                 dotted(st)[:80],
                 f"`self.{st.targets[0].attr} = {v.id}` keeps the caller's "
                 f"list (default: the one shared `{mutable_default[v.id]}` "
-                "of the def): FSA({}) automata all share it, and "
-                "rename_generators(inplace=False) / automaton_multiple give "
-                "results whose start_vertices IS the original's -- "
-                "`R.start_vertices[0] = v` moves the start state of the "
-                "original too", instance=f"FSA.__init__:{st.targets[0].attr}")
+                "of the def): " + why_text,
+                instance=f"{qualname}:{st.targets[0].attr}")
     if n == 0:
-        r.ok("MD1", "FSA.__init__", loc(f, f.node), "",
+        r.ok("MD1", qualname, loc(f, f.node), "",
              "no container parameter with a mutable default is stored bare")
 
 
@@ -1776,6 +1809,33 @@ def _inner_loop_vars(fn):
             else:
                 visit(ch, outer)
     visit(fn, set())
+    # a local built by a comprehension with two generators, the second over
+    # something bound by the first (`{w for row in d.values() for w in row}`),
+    # holds edge targets too: a loop over (an expression of) such a local
+    # binds target variables
+    derived = set()
+    for _ in range(2):
+        for st in ast.walk(fn):
+            if not (isinstance(st, ast.Assign) and len(st.targets) == 1
+                    and isinstance(st.targets[0], ast.Name)):
+                continue
+            v = st.value
+            hit = any(isinstance(x, ast.Name) and x.id in derived
+                      for x in ast.walk(v))
+            for c in ast.walk(v):
+                if isinstance(c, (ast.ListComp, ast.SetComp,
+                                  ast.GeneratorExp)) \
+                        and len(c.generators) >= 2:
+                    bound = names(c.generators[0].target)
+                    if names(c.generators[1].iter) & bound:
+                        hit = True
+            if hit:
+                derived.add(st.targets[0].id)
+    if derived:
+        for ch in ast.walk(fn):
+            if isinstance(ch, ast.For) and names(ch.iter) & derived \
+                    and not any(ch is l for l, _ in out):
+                out.append((ch, names(ch.target)))
     return out
 
 
@@ -1907,6 +1967,53 @@ def rule_hid1(ctx):
                 "incoming view", instance=inst)
 
 
+def _derive_names(facts_in):
+    """{name: bool} implied by a list of (test expression, polarity): names,
+    `not`, `and` / `or` with unit propagation."""
+    known = {}
+    todo = list(facts_in)
+    for _ in range(4):
+        nxt = []
+        for e, pol in todo:
+            if isinstance(e, ast.Name):
+                known.setdefault(e.id, pol)
+            elif isinstance(e, ast.UnaryOp) and isinstance(e.op, ast.Not):
+                nxt.append((e.operand, not pol))
+            elif isinstance(e, ast.BoolOp):
+                conj = isinstance(e.op, ast.And)
+                if pol == conj:
+                    # (a and b) is True / (a or b) is False: every part
+                    nxt.extend((v, pol) for v in e.values)
+                else:
+                    # (a and b) is False: a part that is not known True is
+                    # False when all the others are known True (dually for or)
+                    open_ = []
+                    for v in e.values:
+                        val = _value_of(v, known)
+                        if val is None:
+                            open_.append(v)
+                        elif val != conj:
+                            open_ = None
+                            break
+                    if open_ is not None and len(open_) == 1:
+                        nxt.append((open_[0], pol))
+                    elif open_:
+                        nxt.append((e, pol))
+        todo = nxt
+        if not todo:
+            break
+    return known
+
+
+def _value_of(e, known):
+    if isinstance(e, ast.Name):
+        return known.get(e.id)
+    if isinstance(e, ast.UnaryOp) and isinstance(e.op, ast.Not):
+        v = _value_of(e.operand, known)
+        return None if v is None else (not v)
+    return None
+
+
 def rule_elist1(ctx):
     from .common import path_conditions, stmt_of
     r = ctx.r
@@ -1955,22 +2062,16 @@ def rule_elist1(ctx):
         n += 1
         st = stmt_of(cmp_, f.module.parents)
         conds = list(pc.get(id(st), []))
-        # the test may itself be `ignore_redundant and (not elist) and ..`
-        guarded = False
+        # what is known where the test is evaluated: the path conditions
+        # and, by short-circuit, the conjuncts standing before it
+        facts_in = list(conds)
         par = f.module.parents.get(cmp_)
         if isinstance(par, ast.BoolOp) and isinstance(par.op, ast.And):
             for v in par.values:
-                if isinstance(v, ast.UnaryOp) and isinstance(v.op, ast.Not) \
-                        and isinstance(v.operand, ast.Name) \
-                        and v.operand.id == "elist":
-                    guarded = True
-        for t, pol in conds:
-            if isinstance(t, ast.Name) and t.id == "elist" and pol is False:
-                guarded = True
-            if isinstance(t, ast.UnaryOp) and isinstance(t.op, ast.Not) \
-                    and isinstance(t.operand, ast.Name) \
-                    and t.operand.id == "elist" and pol is True:
-                guarded = True
+                if v is cmp_:
+                    break
+                facts_in.append((v, True))
+        guarded = _derive_names(facts_in).get("elist") is False
         inst = "add_edges:label-membership"
         if guarded:
             r.ok("ELIST1", inst + f"@{cmp_.lineno}", loc(f, cmp_),
@@ -2067,3 +2168,122 @@ def rule_retarget1(ctx):
             "label 'a' on 0->1 in the outgoing and incoming views "
             "(has_edge(0,1) is True) while the label view and edges() say "
             "0-a->2", instance=inst)
+
+
+def rule_n2(ctx):
+    from .common import path_conditions, stmt_of
+    r = ctx.r
+    r.rule("N2", "vertices and labels are arbitrary hashable values and 0 / "
+                 "'' are legal ones (the Coxeter automata label their edges "
+                 "0..rank-1, the free automaton's start state is ''): a "
+                 "variable holding ONE vertex or label -- a component of an "
+                 "unpacked edge triple, a loop variable over a view or a row "
+                 "-- is never tested by truthiness (`if label`, `not label`, "
+                 "`label or ..`). Where the variable holds a LIST of labels "
+                 "(elist known true) an emptiness test is fine")
+    cls = fsa_class(ctx)
+    n = 0
+    for f in cls.methods.values():
+        pc = None
+        single = set()          # names holding one vertex / label
+        elist_sensitive = set()
+        for st in ast.walk(f.node):
+            tgt = None
+            if isinstance(st, ast.Assign) and len(st.targets) == 1 \
+                    and isinstance(st.targets[0], ast.Tuple) \
+                    and len(st.targets[0].elts) == 3:
+                tgt = st.targets[0]
+            elif isinstance(st, ast.For) and isinstance(st.target, ast.Tuple) \
+                    and len(st.target.elts) == 3:
+                tgt = st.target
+            if tgt is not None and all(isinstance(e, ast.Name)
+                                       for e in tgt.elts):
+                single.update(e.id for e in tgt.elts)
+                if "elist" in f.params:
+                    elist_sensitive.add(tgt.elts[2].id)
+            if isinstance(st, ast.For):
+                it = st.iter
+                base = it.func.value if (isinstance(it, ast.Call)
+                                         and isinstance(it.func, ast.Attribute)
+                                         and it.func.attr in ("items", "keys"))\
+                    else it
+                root = base
+                while isinstance(root, ast.Subscript):
+                    root = root.value
+                if view_of(root) is not None:
+                    for e in ([st.target] if isinstance(st.target, ast.Name)
+                              else getattr(st.target, "elts", [])):
+                        if isinstance(e, ast.Name):
+                            # the value side of `.items()` of a row of the
+                            # out / in views is a list of labels
+                            single.add(e.id)
+                    if isinstance(it, ast.Call) and isinstance(
+                            it.func, ast.Attribute) \
+                            and it.func.attr == "items" \
+                            and isinstance(st.target, ast.Tuple) \
+                            and len(st.target.elts) == 2 \
+                            and isinstance(base, ast.Subscript) \
+                            and view_of(base.value) in ("out", "in") \
+                            and isinstance(st.target.elts[1], ast.Name):
+                        single.discard(st.target.elts[1].id)
+                    if isinstance(it, ast.Call) and isinstance(
+                            it.func, ast.Attribute) \
+                            and it.func.attr == "items" \
+                            and view_of(base) is not None \
+                            and isinstance(st.target, ast.Tuple) \
+                            and len(st.target.elts) == 2 \
+                            and isinstance(st.target.elts[1], ast.Name):
+                        # `for v, row in view.items()`: row is a dict
+                        single.discard(st.target.elts[1].id)
+        if not single:
+            continue
+        parents = f.module.parents
+
+        def truth_tests():
+            for x in ast.walk(f.node):
+                if isinstance(x, (ast.If, ast.While, ast.IfExp)):
+                    yield x.test, x
+                elif isinstance(x, ast.BoolOp):
+                    for v in x.values[:-1] if isinstance(x.op, ast.Or) \
+                            else x.values:
+                        yield v, x
+                elif isinstance(x, ast.Call) and dotted(x.func) == "bool" \
+                        and x.args:
+                    yield x.args[0], x
+        seen = set()
+        for t, ctxnode in truth_tests():
+            e = t
+            while isinstance(e, ast.UnaryOp) and isinstance(e.op, ast.Not):
+                e = e.operand
+            if not (isinstance(e, ast.Name) and e.id in single):
+                continue
+            if id(e) in seen:
+                continue
+            seen.add(id(e))
+            n += 1
+            r.analysed(f)
+            if e.id in elist_sensitive:
+                if pc is None:
+                    pc = path_conditions(f.node)
+                st = stmt_of(e, parents)
+                facts = list(pc.get(id(st), []))
+                par = parents.get(t)
+                if isinstance(par, ast.BoolOp) and isinstance(par.op, ast.And):
+                    for v in par.values:
+                        if v is t:
+                            break
+                        facts.append((v, True))
+                if _derive_names(facts).get("elist") is True:
+                    r.ok("N2", f"{f.qualname}:{e.id}@{e.lineno}", loc(f, e),
+                         dotted(t)[:60], "a list of labels here (elist)")
+                    continue
+            r.violation(
+                "N2", f"{f.fq}|{e.id}", loc(f, e), dotted(t)[:80],
+                f"`{dotted(t)[:40]}` tests the vertex / label `{e.id}` by "
+                "truthiness: the label 0 (every Coxeter automaton has one) "
+                "and the state '' are falsy -- add_edges([(2, 0, 0)]) "
+                "creates the vertices but no edge in any view",
+                instance=f"{f.qualname}:{e.id}")
+    if n == 0:
+        r.ok("N2", "FSA", FSA_REL, "",
+             "no truthiness test on a vertex / label variable")
